@@ -81,6 +81,16 @@ def fixtures():
     n += 1
     if b is None or set(shared.str_table(b)) != {"SCRIPT", "SET", "DEL"}:
         fails.append("fixture is_write: table %s" % (sorted(shared.str_table(b)) if b else None))
+    # indexed removal loops (R-REMOVE-ITER)
+    import rules_coll
+    for short, want in (("rm_bad_forward_skip", True), ("rm_ok_forward_else", False), ("rm_ok_backward", False)):
+        b = ctx.prog.bodies.get(short)
+        n += 1
+        if b is None:
+            fails.append("fixture %s missing" % short); continue
+        sites, issues = rules_coll.remove_iter_issues(b)
+        if sites != 1 or bool(issues) != want:
+            fails.append("fixture %s: indexed-removal sites %d, issues %s (expected %s)" % (short, sites, issues, want))
     _FX = (n, fails)
     return _FX
 
